@@ -67,7 +67,8 @@ Inductive tev :=
 | TGAvail (l : list (N * N))
 | TLaunched
 | THeal
-| TRoundH.
+| TRoundH
+| TSteady.
 
 Inductive tres := TraceOk (n : N) | TraceBad (ix code : N).
 
@@ -131,6 +132,37 @@ Definition safe_b (st : fstate) : bool :=
                    | [] => false
                    end) (all_requests st)
   && forallb (λ k, negb (is_member (cur_members (hist_of (f_hist st) (k_shard k))) (k_replica k))) (d_kill (f_db st)).
+
+(** the decidable conjuncts of FleetLiveProofs.Steady (the healed and clean fixpoint of the healthy round):
+    every defined shard launched and non-empty; every host up with nothing queued or in flight; mailboxes
+    and kill list empty; Drummer's view at the current version and every current member running on its
+    host knowing that version; every running replica is such a member; time has started *)
+Definition steady_restb (st : fstate) : bool :=
+  let d := f_db st in
+  forallb (λ kv, bool_decide (is_Some (f_hist st !! kv.1)) && negb (bool_decide (sd_members kv.2 = [])))
+          (map_to_list (d_shards d))
+  && forallb (λ ah, fh_up ah.2 && bool_decide (fh_queue ah.2 = []) && bool_decide (fh_out ah.2 = None))
+             (map_to_list (f_hosts st))
+  && bool_decide (d_requests d = ∅) && bool_decide (d_outgoing d = ∅) && bool_decide (d_kill d = [])
+  && forallb (λ kv, match d_view d !! kv.1 with
+                    | Some c =>
+                      (s_cci c =? cur_version kv.2)
+                      && forallb (λ ra, match f_hosts st !! ra.2 with
+                                        | Some fh => match fh_reps fh !! (kv.1, ra.1) with
+                                                     | Some lr => lr_running lr && (lr_ver lr =? cur_version kv.2)
+                                                     | None => false
+                                                     end
+                                        | None => false
+                                        end) (map_to_list (cur_members kv.2))
+                    | None => false
+                    end) (map_to_list (f_hist st))
+  && forallb (λ ah, forallb (λ kl, negb (lr_running kl.2) ||
+                                   match f_hist st !! kl.1.1 with
+                                   | Some h => bool_decide (cur_members h !! kl.1.2 = Some ah.1) && (lr_ver kl.2 =? cur_version h)
+                                   | None => false
+                                   end) (map_to_list (fh_reps ah.2)))
+             (map_to_list (f_hosts st))
+  && (0 <? d_tick d).
 
 Section Run.
 Variable P : params.
@@ -216,6 +248,7 @@ Definition tstep (st : fstate) (e : tev) : fstate + N :=
   | TLaunched => chk (init_okb st) st 28
   | THeal => inl st
   | TRoundH => chk (safe_b st) st 29
+  | TSteady => chk (steady_restb st && healed P st) st 30
   end.
 
 Fixpoint run_from (st : fstate) (i : N) (tr : list tev) : tres :=
